@@ -677,7 +677,6 @@ func decPrim(c *Ctx, p primInst, wantNoPanic, wantAlloc bool) {
 	})
 }
 
-
 // lockLeak: a decode path that returns while still holding a lock (ghost lock state of the executor) makes every
 // later writer of that lock - and, behind a waiting writer, every later reader - block for ever: a hang.
 // Native confirmation: after the decode, every public Registry...Factory function of the module must return.
@@ -694,7 +693,6 @@ func (c *Ctx) lockLeak(ds *State, mc MsgCase, input func(val func(*Term) uint64)
 		})
 	}
 }
-
 
 // decPrimLong: a list reader on a long input whose count field claims more elements than are present: K genuine
 // elements (arbitrary bytes) follow an arbitrary count > K. Growth policies that trust the claimed count only
